@@ -36,7 +36,7 @@ func makeC14Gen(r *Run) func(d *draws, m *btModel, i int) btOp {
 // changes on populated tables) are reached often.
 var c14Mixes = [][]int{
 	{5, 2, 2, 2, 6, 3, 1, 8, 2},
-	{3, 3, 0, 0, 1, 2, 8, 8, 1}, // clear / delete / re-create heavy
+	{3, 3, 0, 0, 1, 2, 8, 8, 1},  // clear / delete / re-create heavy
 	{2, 1, 1, 0, 12, 2, 1, 8, 1}, // schema heavy
 }
 
